@@ -107,6 +107,28 @@ def cases(rng, tier, Case):
         g = script(ops)
         res.append(Case("hist 100 R %s" % g, "full", {"g": g, "role": "full"}))
         res.append(Case("hist 100 R %s" % script(erased), "erased", {"g": g, "role": "erased"}))
+    # a rule with a new marker added after a parse that scanned link labels must act INSIDE labels too (seed C08-11), and
+    # exactly 254..258 / 510..514 configuration calls between two parses (seed C08-12: a validity counter that wraps)
+    lab = "[l *e*](u) [m `c`][r] ![i](v)\n\n[r]: /w"
+    inlab = "[x %]% y](/u) [p %%] q](/v) [a xx] b](/w) [s ~~]~~ t](/z) a xx b %% c"
+    for c in "348sz":
+        for pat in ("+C;P;+%s;P", "+nelip;P;+%s;P", "+C;P;+%s;-%s;+%s;P", "+C;+%s;P;-%s;P;+%s;P"):
+            ops = []
+            for part in (pat.replace("%s", c)).split(";"):
+                ops.append(("P", lab) if part == "P" else (part[0], part[1:] if part[0] == "+" else part[1:].replace("z", "s")))
+            ops += [("?", "348s"), ("D", ""), ("P", inlab)]
+            erased = [x for i, x in enumerate(ops) if x[0] != "P" or i == len(ops) - 1]
+            g = script(ops)
+            res.append(Case("hist 100 R %s" % g, "full", {"g": g, "role": "full"}))
+            res.append(Case("hist 100 R %s" % script(erased), "erased", {"g": g, "role": "erased"}))
+    for t in (254, 255, 256, 257, 258, 510, 511, 512, 513, 514) if tier != "quick" else (255, 256, 257, 512):
+        for a, b, doc in (("3", "4", "a xx b"), ("4", "3", "a %% b"), ("8", "3", "a %b% c"), ("s", "3", "a ~~b~~ c")):
+            calls = [("+", a), ("-", a)] * ((t - 1) // 2) + ([("+", b)] if (t - 1) % 2 else []) + [("+", a)]
+            ops = [("+", "nep"), ("P", "plain words only")] + calls + [("?", "348s"), ("D", ""), ("P", doc)]
+            erased = [x for i, x in enumerate(ops) if x[0] != "P" or i == len(ops) - 1]
+            g = script(ops)
+            res.append(Case("hist 100 R %s" % g, "full", {"g": g, "role": "full"}))
+            res.append(Case("hist 100 R %s" % script(erased), "erased", {"g": g, "role": "erased"}))
     for pre in ("i", "d", "i;d", "c1;i"):
         for body in ("a1,1", "a1,1;a2,2:l1", "a1,1;i;a2,2:b1", "a3,1:B;a1,2"):
             tail6 = ["c1", "c2", "c3", "c9", "i", "d"]
